@@ -1,7 +1,7 @@
 (* Props/C07.v — C07: Thumb decode (16-bit class selection).  Statement only; proof in Proofs/DecThumb16.v by exhaustive
    evaluation over all 2^16 halfwords inside Coq (the bound is in the statement). *)
 From Coq Require Import ZArith Bool List String.
-From ArmV Require Import Lib.PyZ Proofs.Cube Proofs.DecodeReify Spec.DecTables Proofs.DecThumb16.
+From ArmV Require Import Lib.PyZ Proofs.Cube Proofs.DecodeReify Spec.DecTables Spec.DecTablesT32 Proofs.DecThumb16 Proofs.DecThumb32.
 From Gen Require Import bits_ops opsyn decoders.
 Import ListNotations.
 Open Scope Z_scope.
@@ -10,3 +10,26 @@ Theorem C07_thumb16 w : 0 <= w < 2 ^ 16 ->
   LRet (dec_thumb_instruction_set_encoding_16_bit w) = lookup t16_table (LRet None) w.
 Proof. exact (dec_thumb16_table w). Qed.
 Print Assumptions C07_thumb16.
+
+(* 32-bit Thumb class selection, for every one of the 2^32 words hw1:hw2: the top-level routing (A6.3) and the groups
+   data-processing (shifted register) with its move/shift sub-table, (modified immediate) and (plain binary immediate) *)
+Theorem C07_thumb32_top w : 0 <= w < 2 ^ 32 ->
+  dec_thumb_instruction_set_encoding_32_bit w = eval_leaf t32_env (Val None) (lookup t32_table (LRet (Val None)) w) w.
+Proof. exact (dec_thumb32_top_table w). Qed.
+Print Assumptions C07_thumb32_top.
+Theorem C07_thumb32_move_shift w : 0 <= w < 2 ^ 32 ->
+  dec_thumb_move_register_and_immediate_shifts w = eval_leaf no_env None (lookup t32_mvsh_table (LRet None) w) w.
+Proof. exact (dec_thumb32_move_shift_table w). Qed.
+Print Assumptions C07_thumb32_move_shift.
+Theorem C07_thumb32_dp_shifted_register w : 0 <= w < 2 ^ 32 ->
+  dec_thumb_data_processing_shifted_register w = eval_leaf t32_dpsr_env None (lookup t32_dpsr_table (LRet None) w) w.
+Proof. exact (dec_thumb32_dp_shifted_register_table w). Qed.
+Print Assumptions C07_thumb32_dp_shifted_register.
+Theorem C07_thumb32_dp_modified_immediate w : 0 <= w < 2 ^ 32 ->
+  dec_thumb_data_processing_modified_immediate w = eval_leaf no_env None (lookup t32_dpmi_table (LRet None) w) w.
+Proof. exact (dec_thumb32_dp_modified_immediate_table w). Qed.
+Print Assumptions C07_thumb32_dp_modified_immediate.
+Theorem C07_thumb32_plain_binary_immediate w : 0 <= w < 2 ^ 32 ->
+  dec_thumb_data_processing_plain_binary_immediate w = eval_leaf no_env None (lookup t32_pbi_table (LRet None) w) w.
+Proof. exact (dec_thumb32_plain_binary_immediate_table w). Qed.
+Print Assumptions C07_thumb32_plain_binary_immediate.
